@@ -1,4 +1,5 @@
 """C18 — Banned directives are really banned, and the option changes nothing else."""
+import os
 import json
 import random
 
@@ -228,8 +229,8 @@ def run(res, tier, seed, replay):
     res.count(n_corr)
     res.coverage["traces_validated_against_impl"] = n_corr
     # --- 5. conservativity on fixtures: a ban of a kind that does not occur changes nothing
-    files = [f for f in S.fixture_files() if "/err" not in f]
-    sample = rng.sample(files, min(len(files), 60 if quick else 600))
+    files = [f for f in S.fixture_files()]          # accepted AND rejected documents: the diagnostic must stay what it is too
+    sample = rng.sample(files, min(len(files), 120 if quick else 900))
     l0, l1, meta = [], [], []
     for f in sample:
         t = open(f, "rb").read()
@@ -243,12 +244,24 @@ def run(res, tier, seed, replay):
         l0.append(P.run_line("out=sha", [("a.jst", t)]))
         l1.append(P.run_line("out=sha,ban=" + "+".join(map(str, ks)), [("a.jst", t)]))
         meta.append((f, ks))
+    # the TEXT of a banned keyword standing where no keyword is read (a parameter, a method name, a one-token body, a
+    # description line, a comment): nothing is banned there; and rejected projects without any banned kind
+    words = [("23", "INFO\n  Title INCLUDE\n"), ("27", "URL /r\n  Protocol json-rpc-2.0\n  Method Result\n"), ("8", "URL /r\n  Protocol json-rpc-2.0\n  Method GET\n"),
+             ("15", "TYPE @code\n  200\nGET /a\n  404 any\n".replace("404 any", "Request any")), ("21", "GET /a // MACRO of sorts\n  Query MACRO\n    {}\n  200 any\n"),
+             ("22", "INFO\n  Title \"t\"\n  Description\n    use PASTE here\nGET /a\n  200 any # PASTE\n"), ("28", "SERVER @s\n  BaseUrl TAG\n"),
+             ("21", "GET /a\n  PASTE @common\n  200 any\n"), ("21", "PASTE\n"), ("22", "MACRO @m\n(\n  200 any\n)\nMACRO @m\n(\n  404 any\n)\n"),
+             ("21+22", "GET /a\n  200 @nowhere\n"), ("23", "GET /a\n  200 any\nGET /a\n  200 any\n"), ("19", "GET /a\n  200 @t\n"), ("20", "TYPE @t\n  {\n    \"k\": 1 // {enum: @e}\n  }\n")]
+    for ks_, body_ in words:
+        t_ = (J + body_).encode()
+        l0.append(P.run_line("out=sha", [("a.jst", t_)]))
+        l1.append(P.run_line("out=sha,ban=" + ks_, [("a.jst", t_)]))
+        meta.append(("(generated) " + body_[:60].replace("\n", " / "), ks_))
     o0 = C.run_sharded("harness", "fn", l0)
     o1 = C.run_sharded("harness", "fn", l1)
     res.count(len(l0) * 2)
     for (f, ks), a, b in zip(meta, o0, o1):
         if a != b:
-            spec_bad.append(([("a.jst", open(f, "rb").read())], "ban=%s" % ks, "banning kinds %s that do not occur changes the result of %s" % (ks, f)))
+            spec_bad.append(([("a.jst", open(f, "rb").read() if os.path.exists(f) else f.encode())], "ban=%s" % ks, "banning kinds %s that do not occur changes the result of %s: %s -> %s" % (ks, f, a[:80], b[:80])))
     res.notes["input_distribution"] = {"ban_sets_on_reference_doc": len(cases), "special_placements": len(special),
                                        "include_variants": len(variants), "sequence_projects": n_corr, "fixtures": len(l0)}
     res.sample({"opts": cases[3][0], "outcome": outs[0][:100]})
